@@ -8,7 +8,10 @@ resolved, arguments bound to the callee's parameters) and decide on the CFG:
 * R2  what every routing attribute of the decoder is built from;
 * R3  infeasibility of the constructor completing under rejected key material / wrong key lengths (CFG specialised
       under the assumption);
-* R4  the client builds its requests with the transform, keys and framing the decoder undoes; generator ordering.
+* R4  the client builds its requests with the transform, keys and framing the decoder undoes; generator ordering;
+* R8  the router is complete: a request that has the verb and the URI prefix of a route is given that route's transform
+      whatever the tests on the other route's verb / URI say (Malleable C2 `set verb` may make the two verbs the same
+      string), and a response is given the response transform - the converse of R1.
 
 A subject that cannot be located is reported as undecided, a located subject that does not satisfy the condition as
 violated.
@@ -50,6 +53,18 @@ assumption* (`_tv` / `_spec`); the only iteration is the fixpoint of `_resolve` 
       conversions that are not that.  Recognised structurally, never by formatting a sample number.
 * R5  1/3 (the engine's may-raise summary over the call graph from the router, `csverif.effects.check_escape`; a raise
       through a local is given the class of the instance bound to it by def-use).
+* R8  5 (case analysis over the finite vocabulary the router itself dispatches on - the message class and the four atomic
+      tests `method == <verb attribute>` / `uri.startswith(<URI attribute>)` of `_ROUTES`: per request route the three
+      ways the *other* route's condition can fail, plus "the message is a HttpResponse"; every one of these truth
+      assignments is realisable, because verbs and URIs are free strings of the profile; the assignment where both
+      routes match is the ambiguous configuration the property does not speak about and is not judged); 2/3 (path-wise
+      value flow through the router's CFG under that named assumption: branch tests evaluated three-valued, an
+      undecided test followed both ways, locals holding a transform / None tracked through assignments; no concrete
+      message, verb or URI exists anywhere).  Verdict: an exit other than the required transform on a path whose
+      branches were all decided by the assumption (or when no exit at all is the required one) is a violation; when
+      only paths through tests the rule cannot classify lead to another exit the obligation is undecided.  Lemmas: a
+      parsed message is not an instance of bytes/bytearray/memoryview/str; an instance of a class that defines neither
+      `__bool__` nor `__len__` (checked on HttpDataTransform) is truthy and is not None.
 * R6  obligations of `rules.c04.run`, R7 obligations of `rules.c19.r5`, imported unchanged - their technique is stated
       in (and audited with) those modules.
 """
@@ -413,14 +428,21 @@ def run(ctx):
         "with the branch conditions that dominate it (verb equality AND URI prefix; response -> response transform; "
         "otherwise raise ValueError, never None); the setting each transform/verb/URI attribute of C2Http is built from; "
         "dominance of the key-material validation over the key attributes; the transforms, keys and framing the client "
-        "uses to build requests vs. the ones the decoder uses. Whole-session histories are not decided."
+        "uses to build requests vs. the ones the decoder uses; completeness of the router (a request with the verb and URI "
+        "prefix of a route reaches that route's transform whatever the other route's verb/URI tests say - the verbs may be "
+        "equal - and a response reaches the response transform). Whole-session histories are not decided."
     )
-    rep.not_decided = ["whole-session decoding over all interleavings", "metadata_cache / beacon_keys evolution over time", "packet contents"]
+    rep.not_decided = ["whole-session decoding over all interleavings", "metadata_cache / beacon_keys evolution over time", "packet contents",
+                       "which transform is chosen for a request that matches both request routes (same verb, one URI a prefix of the other)"]
     rep.trusted_base = [
         "CPython ast", "networkx dominators",
         "named assumptions of R3 (key material truthy/falsy; key not None with len != 16) decide only `x`, `x is (not) None` and `len(x) ==/!= 16` tests - a truthy value is not None",
         "lemma: str(n), '%d' % n, '{}'.format(n), f'{n}', b'%d' % n of an int n are its decimal digits; UTF-8, ASCII and Latin-1 encode them to the same bytes (recognised structurally)",
         "lemma: x.encode(), x.encode('utf-8'), str.encode(x), bytes(x, 'utf-8') are the same str->bytes conversion",
+        "named assumptions of R8 (the message is a HttpRequest with the verb and URI prefix of one route while the other route's verb / prefix test fails; "
+        "the message is a HttpResponse) decide only isinstance tests on the message, `method ==/!= <verb attribute>` and `uri.startswith(<URI attribute>)`; "
+        "every such assignment is realisable since verbs and URIs are free profile strings",
+        "lemma: a parsed message is not bytes/bytearray/memoryview/str; HttpDataTransform defines neither __bool__ nor __len__ (checked), so a transform is truthy and not None",
         "R6/R7 are the obligations of rules.c04 / rules.c19.r5 (their trusted base applies)",
     ]
     r1(ctx)
@@ -428,6 +450,7 @@ def run(ctx):
     r3(ctx)
     r4(ctx)
     r5(ctx)
+    r8(ctx)
     # the traffic decoder is only as good as the transform layer it routes to: C04's obligations on
     # HttpDataTransform.transform/recover are necessary conditions of C07 as well
     from rules import c04
@@ -1235,6 +1258,236 @@ def _r4_decoder(ctx):
                 if dotted(l) == "self.priv" and is_none(r) and isinstance(op, ast.IsNot if pol else ast.Is):
                     guarded = True
         ctx.ob("R4", "DOM", ir, "decrypt_metadata(..., self.priv)", key_ok and guarded, "metadata is decrypted only with a private key present" if key_ok and guarded else f"metadata decryption uses self.priv={key_ok}; guarded by the presence of self.priv={guarded}", dm[0])
+
+
+# ---------------------------------------------------------------------------- R8: the router is complete
+_REQ, _RESP = "c2.HttpRequest", "c2.HttpResponse"
+_NOT_A_MESSAGE = ("bytes", "bytearray", "memoryview", "str")  # builtin classes a parsed message is not an instance of
+_REQUEST_ROUTES = ("self.transform_get", "self.transform_submit")
+
+
+def _route_atoms(route):
+    return sorted((x for x in _ROUTES[route] if x[0] != "is"), reverse=True)  # verb, prefix
+
+
+def _atom_text(k):
+    return f"method == {k[1]}" if k[0] == "verb" else f"uri.startswith({k[1]})" if k[0] == "prefix" else f"isinstance(<message>, {k[1].split('.')[-1]})"
+
+
+def _router_outcomes(ctx, f, is_msg, assign, truthy_routes):
+    """Path-wise value flow through the router under a *named assumption*: `assign` gives the truth value of the atomic
+    facts about the message (its class, verb equalities, URI prefixes - the vocabulary the router itself dispatches on,
+    `_ROUTES`); facts that are not in it stay unknown.  Branch tests are evaluated three-valued, an undecided test is
+    followed both ways; locals that hold a transform / None are tracked (the single-exit shape).  Nothing is executed, no
+    concrete message exists.  Result: [(outcome, exact)] with outcome a route of `_ROUTES`, 'None', ('raise', class),
+    'reentry' (the router's own result for the same message) or '?'; `exact`: every branch on the path was decided."""
+    cfg = ctx.cfg(f)
+    g = cfg.g
+    out, seen = [], set()
+
+    def isinst(e):
+        vals = []
+        for x in (e.args[1].elts if isinstance(e.args[1], ast.Tuple) else [e.args[1]]):
+            d = dotted(x)
+            s = ctx.rs.lookup_dotted(f.module.name, d) if d else None
+            if s is not None and s.kind == "class":
+                vals.append(assign.get(("is", s.fq)))
+            else:
+                vals.append(False if d in _NOT_A_MESSAGE else None)
+        return True if any(v is True for v in vals) else False if all(v is False for v in vals) else None
+
+    def mk_atom(env):
+        def atom(e):
+            if isinstance(e, ast.Name) and e.id in env:
+                v = env[e.id]
+                return False if v == "None" else (True if truthy_routes else None) if v in _ROUTES else None
+            if isinstance(e, ast.Compare) and len(e.ops) == 1 and isinstance(e.ops[0], (ast.Is, ast.IsNot)) and is_none(e.comparators[0]) and isinstance(e.left, ast.Name) and e.left.id in env:
+                v = env[e.left.id]
+                if v == "None" or v in _ROUTES:
+                    return (v == "None") == isinstance(e.ops[0], ast.Is)
+                return None
+            if isinstance(e, ast.Call) and dotted(e.func) == "isinstance" and len(e.args) == 2 and not e.keywords and is_msg(e.args[0]):
+                return isinst(e)
+            k = _route_fact(ctx, f, is_msg, e, True)
+            if k is not None and k[0] in ("verb", "prefix"):
+                return assign.get(k)
+            k = _route_fact(ctx, f, is_msg, e, False)
+            if k is not None and k[0] == "verb" and assign.get(k) is not None:
+                return not assign[k]
+            return None
+
+        return atom
+
+    def tv(e, env):
+        atom = mk_atom(env)
+        v = _tv(e, atom)
+        return _tv(_inl(f, e), atom) if v is None else v
+
+    def val(e, env, depth=0):
+        e = strip_cast(e)
+        if isinstance(e, ast.IfExp) and depth < 6:
+            t = tv(e.test, env)
+            a = val(e.body, env, depth + 1) if t is not False else None
+            b = val(e.orelse, env, depth + 1) if t is not True else None
+            return a if t is True else b if t is False else a if a == b else "?"
+        if isinstance(e, ast.Name) and e.id in env:
+            return env[e.id]
+        if is_none(e):
+            return "None"
+        if dotted(e) in _ROUTES:
+            return dotted(e)
+        if isinstance(e, ast.Name) and depth < 6:
+            i = _inl(f, e)
+            if not isinstance(i, ast.Name):
+                return val(i, env, depth + 1)
+        if isinstance(e, ast.Call) and _fq(ctx, f, e) == f.fq and any(is_msg(a) for a in list(e.args) + [k.value for k in e.keywords]):
+            return "reentry"
+        return "?"
+
+    def bind(env, t, v):
+        if isinstance(t, (ast.Tuple, ast.List)):
+            if isinstance(v, (ast.Tuple, ast.List)) and len(v.elts) == len(t.elts) and not any(isinstance(x, ast.Starred) for x in list(t.elts) + list(v.elts)):
+                vals = [val(x, env) for x in v.elts]
+                for te, x in zip(t.elts, vals):
+                    if isinstance(te, ast.Name):
+                        env[te.id] = x
+                    else:
+                        bind(env, te, None)
+            else:
+                for te in t.elts:
+                    bind(env, te.value if isinstance(te, ast.Starred) else te, None)
+        elif isinstance(t, ast.Name):
+            env[t.id] = "?" if v is None else val(v, env)
+
+    def step(st, env):
+        env = dict(env)
+        heads = [st]
+        if isinstance(st, ast.Assign):
+            for t in st.targets:
+                bind(env, t, st.value)
+        elif isinstance(st, ast.AnnAssign) and st.value is not None:
+            bind(env, st.target, st.value)
+        elif isinstance(st, ast.AugAssign):
+            bind(env, st.target, None)
+        elif isinstance(st, ast.Delete):
+            for t in st.targets:
+                bind(env, t, None)
+        elif isinstance(st, (ast.For, ast.AsyncFor)):
+            bind(env, st.target, None)
+            heads = [st.iter]
+        elif isinstance(st, (ast.With, ast.AsyncWith)):
+            for it in st.items:
+                if it.optional_vars is not None:
+                    bind(env, it.optional_vars, None)
+            heads = [it.context_expr for it in st.items]
+        elif isinstance(st, (ast.If, ast.While)):
+            heads = [st.test]
+        elif not isinstance(st, (ast.Assign, ast.AnnAssign, ast.AugAssign, ast.Expr, ast.Return, ast.Raise, ast.Assert, ast.Delete)):
+            heads = []  # try / except headers, nested definitions ...: no expression of their own is evaluated here
+            for n in [st] + list(getattr(st, "names", [])):
+                name = getattr(n, "asname", None) or getattr(n, "name", None)
+                if isinstance(name, str):
+                    env[name.split(".")[0]] = "?"
+        for h in heads:
+            for n in ast.walk(h):
+                if isinstance(n, ast.NamedExpr):
+                    env[n.target.id] = "?"
+        return env
+
+    def walk(n, env, exact):
+        key = (n, tuple(sorted(env.items())), exact)
+        if key in seen:
+            return
+        if len(seen) > 4000:  # not followed any further: the outcome of this path is unknown
+            out.append(("?", False))
+            return
+        seen.add(key)
+        if n == EXIT:
+            out.append(("None", exact))
+            return
+        st = cfg.stmt.get(n)
+        succ = list(g.successors(n))
+        if isinstance(st, ast.Return):
+            out.append((val(st.value, env) if st.value is not None else "None", exact))
+            return
+        if isinstance(st, ast.Raise):
+            inner = [s for s in succ if s != ("raise",)]
+            if len(inner) < len(succ) or not succ:
+                out.append((("raise", _raise_class(f, st)), exact and not inner))
+            for s in inner:
+                walk(s, env, False)
+            return
+        if st is not None and not isinstance(st, (ast.If, ast.While, ast.For, ast.AsyncFor, ast.With, ast.AsyncWith, ast.Try, ast.ExceptHandler)) and (hasattr(st, "body") or hasattr(st, "cases")) and not isinstance(
+                st, (ast.FunctionDef, ast.AsyncFunctionDef, ast.ClassDef)) and st.__class__.__name__ != "TryStar":
+            out.append(("?", False))  # a compound statement the CFG does not look into (match ...): exits inside it are not seen
+            return
+        if st is not None:
+            env = step(st, env)
+        if isinstance(st, (ast.If, ast.While)):
+            v = tv(st.test, env)
+            if v is not None:
+                e = cfg.edge_node(st, "true" if v else "false")
+                if g.has_edge(n, e):
+                    walk(e, env, exact)
+                return
+        for s in succ:
+            walk(s, env, exact and len(succ) == 1)
+
+    walk(ENTRY, {}, True)
+    return out
+
+
+def r8(ctx):
+    """Completeness of the routing: a request that has the verb and the URI prefix of a request route is given that
+    route's transform whatever the tests on the *other* route's verb / URI say (the two verbs may be the same string),
+    and a response is given the response transform."""
+    f = ctx.repo.func("c2.C2Http.get_transform_for_http")
+    is_msg = _message_pred(ctx, f, params(f.node)[1])
+    try:
+        tcls = ctx.repo.cls("c2.HttpDataTransform")
+    except Exception:
+        tcls = None
+    # lemma: an instance of a class that defines neither __bool__ nor __len__ is truthy
+    truthy_routes = tcls is not None and not any(isinstance(s, (ast.FunctionDef, ast.AsyncFunctionDef)) and s.name in ("__bool__", "__len__") for s in tcls.body)
+
+    def judge(cases, want):
+        """cases: [(label, assign)] -> (verdict, detail)"""
+        bad_exact, bad_all, open_, shown = [], [], [], []
+        for label, assign in cases:
+            res = _router_outcomes(ctx, f, is_msg, assign, truthy_routes)
+            good = [o for o, _x in res if o in (want, "reentry")]
+            unknown = [o for o, _x in res if o == "?"]
+            bad = [(o, x) for o, x in res if o not in (want, "reentry", "?")]
+            names = sorted({("raise " + str(o[1])) if isinstance(o, tuple) else ("return " + o) for o, _x in bad})
+            if any(x for _o, x in bad):
+                bad_exact.append(f"[{label}] -> {sorted({('raise ' + str(o[1])) if isinstance(o, tuple) else ('return ' + o) for o, x in bad if x})}")
+            elif bad and not good and not unknown:
+                bad_all.append(f"[{label}] -> {names}")
+            elif bad or unknown or not res:
+                open_.append(f"[{label}] -> may {names + (['return <not followed>'] if unknown else [])}")
+            shown.append(label)
+        if bad_exact or bad_all:
+            return False, f"required: return {want}; not so with " + "; ".join(bad_exact + bad_all)
+        if open_:
+            return None, f"required: return {want}; the branches taken are not all decided by the message class / verb / URI-prefix tests this rule can classify: " + "; ".join(open_)
+        return True, f"return {want} is the only exit under each assumption: " + "; ".join(f"[{x}]" for x in shown)
+
+    base = {("is", _REQ): True, ("is", _RESP): False}
+    for route in _REQUEST_ROUTES:
+        other = [r for r in _REQUEST_ROUTES if r != route][0]
+        mine, theirs = _route_atoms(route), _route_atoms(other)
+        cases = []
+        # every way the other route's condition can fail (both holding is the ambiguous configuration the property does
+        # not speak about)
+        for tv_ in ((True, False), (False, True), (False, False)):
+            assign = dict(base)
+            assign.update({k: True for k in mine})
+            assign.update(dict(zip(theirs, tv_)))
+            cases.append((", ".join(f"{_atom_text(k)} {'holds' if v else 'fails'}" for k, v in zip(theirs, tv_)), assign))
+        verdict, detail = judge(cases, route)
+        _emit(ctx, "R8", "EXIT", f, f"complete: request with {' and '.join(_atom_text(k) for k in mine)} -> {route}", verdict, detail)
+    verdict, detail = judge([("a HttpResponse; nothing assumed about verb / URI tests", {("is", _REQ): False, ("is", _RESP): True})], "self.transform_response")
+    _emit(ctx, "R8", "EXIT", f, "complete: response -> self.transform_response", verdict, detail)
 
 
 def r5(ctx):
